@@ -140,7 +140,7 @@ func CheckC02(c *Ctx) {
 			})
 			c.Extra["v2_objects_enumerated"] = total
 		} else {
-			c.Parallel("v2-sample", 1_500_000, 4096, func(w *Worker, i int) {
+			c.Parallel("v2-sample", 3_000_000, 4096, func(w *Worker, i int) {
 				a := gen.RandomAssign(w.R, v)
 				objCase(w, api, a, w.R.Intn(NStyles))
 				c.Distinct.Add(HashBytes(spec.V20, a))
@@ -152,7 +152,7 @@ func CheckC02(c *Ctx) {
 			continue
 		}
 		api, vi := api, vi
-		c.Parallel("random-"+api.Ver.Name, c.Pick(1_500_000, 60_000_000), 4096, func(w *Worker, i int) {
+		c.Parallel("random-"+api.Ver.Name, c.Pick(3_000_000, 60_000_000), 4096, func(w *Worker, i int) {
 			var a spec.Assign
 			if w.R.Bool() {
 				a = gen.RandomAssign(w.R, api.Ver)
@@ -562,7 +562,7 @@ func CheckC07(c *Ctx) {
 	for _, api := range probe.APIs {
 		api := api
 		habv := hostileAbvs(api.Ver)
-		c.Parallel("histories-"+api.Ver.Name, c.Pick(40_000, 4_000_000), 256, func(w *Worker, i int) {
+		c.Parallel("histories-"+api.Ver.Name, c.Pick(200_000, 5_000_000), 256, func(w *Worker, i int) {
 			n := 1 + w.R.Intn(200)
 			if w.R.Chance(3, 4) {
 				n = 1 + w.R.Intn(40)
@@ -675,7 +675,7 @@ func CheckC09(c *Ctx) {
 		c.Parallel("zero-"+v.Name, 1, 1, func(w *Worker, i int) {
 			wellFormed(c, w, api, api.New(), func() []Step { return []Step{{Op: "new"}} })
 		})
-		c.Parallel("sweeps-"+v.Name, c.Pick(30_000, 3_000_000), 256, func(w *Worker, i int) {
+		c.Parallel("sweeps-"+v.Name, c.Pick(150_000, 4_000_000), 256, func(w *Worker, i int) {
 			n := 1 + w.R.Intn(60)
 			history(c, w, api, n, habv, hval, true)
 		})
@@ -838,7 +838,7 @@ func CheckC16(c *Ctx) {
 		}
 	})
 	// random assignments in random history styles
-	c.Parallel("random", c.Pick(1_500_000, 100_000_000), 4096, func(w *Worker, i int) {
+	c.Parallel("random", c.Pick(4_000_000, 100_000_000), 4096, func(w *Worker, i int) {
 		var a spec.Assign
 		switch w.R.Intn(3) {
 		case 0:
